@@ -32,8 +32,9 @@ Theorem C15_store_refines_map : forall O H steps,
   wf (final O H steps false []) /\
   (forall n res d, nth_error (run O H steps false []) n = Some (res, d) ->
      d = dump (final O H (firstn (S n) steps) false []) /\
-     res = snd (fst (do_step_l O H (nth n steps (SStore 0 OList)) (lock_after (firstn n steps) false)
-                               (final O H (firstn n steps) false [])))).
+     res = view (nth n steps (SStore 0 OList))
+                (snd (fst (do_step_l O H (nth n steps (SStore 0 OList)) (lock_after (firstn n steps) false)
+                                     (final O H (firstn n steps) false []))))).
 Proof.
   intros O H steps. split; [apply final_is_fold|]. split; [apply wf_final, wf_nil|]. intros n res d. apply run_snapshots.
 Qed.
